@@ -128,9 +128,16 @@ fn spec(bytes: &[u8]) -> Option<Value> {
         .map(|n| {
           let host = n.as_list().and_then(|p| p.first()).and_then(s_of).unwrap_or_default();
           let port = n.as_list().and_then(|p| p.get(1)).and_then(|p| p.as_int()).unwrap_or(0);
-          // normalised HOST:PORT through the C17 hook
+          // normalised HOST:PORT, worked out here for the hosts std can read (an IPv6 address stays an IPv6 address, in
+          // the WHATWG spelling; an IPv4 address in dotted decimal); other spellings through the C17 hook
           let text = if host.contains(':') { format!("[{host}]:{port}") } else { format!("{host}:{port}") };
-          Value::String(imdl::verif::hostport_parse(&text).unwrap_or(text))
+          if let Ok(a6) = host.parse::<std::net::Ipv6Addr>() {
+            Value::String(format!("[{}]:{port}", super::c17::canon6(&a6.segments())))
+          } else if let Ok(a4) = host.parse::<std::net::Ipv4Addr>() {
+            Value::String(format!("{a4}:{port}"))
+          } else {
+            Value::String(imdl::verif::hostport_parse(&text).unwrap_or(text))
+          }
         })
         .collect()
     })
@@ -289,6 +296,20 @@ fn check_text(j: &Value, tab: &str, term: &str) -> Option<String> {
   let tiers: Vec<String> = j.get("announce_list")?.as_array()?.iter().flat_map(|t| t.as_array().cloned().unwrap_or_default()).filter_map(|u| u.as_str().map(|s| s.to_string())).collect();
   if !tiers.is_empty() && get("announce list") != Some(tiers) {
     return Some("tab row `announce list` differs from JSON".into());
+  }
+  // terminal rendering: every tier has its `Tier N:` label, whether or not it holds a tracker
+  let n_tiers = j.get("announce_list").and_then(|a| a.as_array()).map(|a| a.len()).unwrap_or(0);
+  if n_tiers > 0 {
+    let tb = term.as_bytes();
+    let shown = (0..tb.len()).filter(|&i| tb[i..].starts_with(b"Tier ") && {
+      let rest = &tb[i + 5..];
+      let d = rest.iter().take_while(|c| c.is_ascii_digit()).count();
+      d > 0 && rest.get(d) == Some(&b':')
+    }).count();
+    // (a tracker URL may itself contain `Tier 1:`; such values are not generated)
+    if shown != n_tiers {
+      return Some(format!("--terminal rendering shows {shown} tier labels, the file has {n_tiers} tiers"));
+    }
   }
   // terminal rendering: one row per value, each on a line of its own - also when the value is the empty string
   for (label, key) in [("Name", "name"), ("Comment", "comment"), ("Created By", "created_by"), ("Source", "source")] {
